@@ -17,7 +17,18 @@ class LibCalls:
 
         def writeback(s, nv):
             outs = e.assign_lvalue(recv_expr, nv, s, raw=True)
-            return [(s2, (oc[1] if oc[0] == "raise" else e.const_val(None))) for s2, oc in outs]
+            res = [(s2, (oc[1] if oc[0] == "raise" else e.const_val(None))) for s2, oc in outs]
+            hook = e.contract.ghost_after.get(f"{k}.{name}") if (e.contract is not None and len(st.frames) == 1 and not e.spec_mode and not e.ghost_mode) else None
+            if hook:
+                res2 = []
+                for s2, r in res:
+                    if isinstance(r, Exc):
+                        res2.append((s2, r))
+                    else:
+                        for s3 in e.exec_ghost(hook, s2):
+                            res2.append((s3, r))
+                return res2
+            return res
 
         if k == "set":
             et = base.t[1]
@@ -100,6 +111,17 @@ class LibCalls:
                     else:
                         out.append((s, Exc("IndexError", "pop from empty list", node.lineno)))
                 return out
+            if name == "insert" and args[0].conc != 0:
+                self.use("list.insert(i, x) with 0 <= i <= len: elements from i on shift right by one")
+                pos = e.coerce(args[0], INT, node).z
+                x = e.coerce(args[1], et, node).z
+                pos = z3.If(pos < 0, z3.If(pos + n < 0, z3.IntVal(0), pos + n), z3.If(pos > n, n, pos))
+                L2 = e.fresh(base.t, "ins")
+                i = z3.Int(fresh_name("i"))
+                st.assume(e.list_len(L2) == n + 1)
+                st.assume(z3.ForAll([i], z3.Select(e.list_at(L2), i) == z3.If(i < pos, z3.Select(at, i), z3.If(i == pos, x, z3.Select(at, i - 1))),
+                                    patterns=[z3.Select(e.list_at(L2), i)]))
+                return writeback(st, L2)
             if name == "insert" and args[0].conc == 0:
                 x = e.coerce(args[1], et, node).z
                 i = z3.Int(fresh_name("i"))
@@ -359,6 +381,14 @@ class LibCalls:
             return [(st, Val(FLOAT, z))]
         if name in ("max", "min") and len(args) == 1 and args[0].t[0] == "list":
             return self.max_min(name, args[0], st, node)
+        if name in ("any", "all") and len(args) == 1 and args[0].t[0] == "list":
+            L = args[0]
+            i = z3.Int(fresh_name("i"))
+            rng = z3.And(0 <= i, i < e.list_len(L))
+            c = e.truth(Val(L.t[1], z3.Select(e.list_at(L), i)))
+            return [(st, Val(BOOL, z3.Exists([i], z3.And(rng, c)) if name == "any" else z3.ForAll([i], z3.Implies(rng, c))))]
+        if name in ("max", "min") and len(args) == 1 and args[0].t[0] in ("gen",):
+            raise Unsupported("max over a generator", node, e.path)
         if name == "abs" and args[0].t[0] == "int":
             return [(st, Val(INT, z3.If(args[0].z < 0, -args[0].z, args[0].z)))]
         if name == "id":
@@ -409,6 +439,11 @@ class LibCalls:
             names.append(cls.conc)
         k = v.t[0]
         res = []
+        if cls.t[0] == "symcls":
+            if k in ("int", "bool", "float", "str", "none", "list", "set", "dict", "tuple"):
+                return z3.BoolVal(False)       # python scalars / containers are never instances of a ctypes class
+            if k == "ref":
+                return z3.And(v.z != e.S.null, e.dtype_fn(v.z) == cls.z)
         for n in names:
             if n is None:
                 raise Unsupported("isinstance with a symbolic class", node, e.path)
@@ -442,6 +477,23 @@ class LibCalls:
     def reflect(self, name, args, st, node):
         e = self.e
         obj, an = args[0], args[1]
+        if an.conc is None and an.t[0] == "str" and obj.t[0] == "ref" and name in ("getattr", "setattr"):
+            # attribute chosen at run time (descriptor storage): one ghost map per value kind, keyed by (object, name)
+            self.use("getattr/setattr with a computed name: a per-object map from names to values (descriptor backing storage)")
+            if name == "setattr":
+                v = args[2]
+                kind = {"int": "int", "bool": "int", "float": "float", "str": "str"}.get(v.t[0])
+                if kind is None:
+                    raise Unsupported(f"setattr of a {tstr(v.t)} under a computed name", node, e.path)
+                ty = {"int": INT, "float": FLOAT, "str": STR}[kind]
+                mt = ("map", STR, ty)
+                arr = e.heap_arr(st, "$dyn", kind, mt)
+                cur = z3.Select(arr, obj.z)
+                st.heap[("$dyn", kind)] = z3.Store(arr, obj.z, z3.Store(cur, an.z, e.coerce(v, ty, node).z))
+                if st.written is not None:
+                    st.written.add(("heap", "$dyn", kind, obj.z))
+                return [(st, e.const_val(None))]
+            raise Unsupported("getattr under a computed name (type unknown)", node, e.path)
         if an.conc is None:
             raise Unsupported(f"{name} with a symbolic attribute name", node, e.path)
         attr = an.conc
@@ -703,6 +755,10 @@ class LibCalls:
                 raise Unsupported(f"missing argument {n} for {cname}", node, e.path)
             for s, r in self.field_set(obj, n, v, st, node, raw=True):
                 pass
+        for cl in getattr(d, "init_assume", []):
+            sp = st.fork()
+            sp.frames = [{"self": obj}]
+            st.assume(e.truth(e.sv(ast.parse(cl, mode="eval").body, sp)))
         for g, t in d.ghost.items():
             init = getattr(d, "ghost_init", {}).get(g)
             if init is not None:
@@ -713,6 +769,19 @@ class LibCalls:
         """call of a class held in a variable (self.header_cls()): the static class is the declared
         upper bound; the dynamic class is the symbolic one"""
         e = self.e
+        cm = getattr(e.contract, "ctype_model", None) if e.contract is not None else None
+        if cm in ("float32", "float64") and fv.conc is None and len(args) == 1:
+            # self._ctype(value) for the float validators: ctypes.c_float / c_double conversion
+            self.use("ctypes.c_float(x) / c_double(x): TypeError unless x is int or float; .value is x rounded to the type (RNE); huge ints (OverflowError) excluded by precondition")
+            v = args[0]
+            if v.t[0] not in ("int", "bool", "float"):
+                return [(st, Exc("TypeError", "ctypes float conversion of a non-number", getattr(node, "lineno", 0)))]
+            f = e.coerce(v, FLOAT).z
+            if cm == "float32":
+                f = z3.fpToFP(z3.RNE(), z3.fpToFP(z3.RNE(), f, z3.Float32()), e.S.Float)
+            box = e.new_object(st, "CFloatBox", "cbox")
+            e.store_field(st, box, "value", Val(FLOAT, f))
+            return [(st, box)]
         bound = fv.conc or e.opts.get("symcls_bound", "MessageHeader")
         obj = e.new_object(st, bound, "hdr")
         st.pc.pop()    # drop the exact dtype fact added by new_object
